@@ -7,11 +7,13 @@ require (
 	github.com/grafana/carbon-relay-ng v0.0.0
 	github.com/metrics20/go-metrics20 v0.0.0-20180821133656-717ed3a27bf9
 	github.com/sirupsen/logrus v1.1.2-0.20181020050904-08e90462da34
+	github.com/streadway/amqp v0.0.0-20170521212453-dfe15e360485
 	pgregory.net/rapid v1.3.0
 )
 
 require (
 	cloud.google.com/go v0.18.1-0.20180119164648-b1067c1d21b5 // indirect
+	github.com/BurntSushi/toml v0.0.0-00010101000000-000000000000 // indirect
 	github.com/DataDog/zstd v1.3.6-0.20190409195224-796139022798 // indirect
 	github.com/Dieterbe/artisanalhistogram v0.0.0-20170619072513-f61b7225d304 // indirect
 	github.com/Dieterbe/go-metrics v0.0.0-20181015090856-87383909479d // indirect
@@ -40,6 +42,7 @@ require (
 	github.com/pierrec/lz4 v0.0.0-20190327172049-315a67e90e41 // indirect
 	github.com/prometheus/procfs v0.0.0-20190425082905-87a4384529e0 // indirect
 	github.com/rcrowley/go-metrics v0.0.0-20181016184325-3113b8401b8a // indirect
+	github.com/taylorchu/toki v0.0.0-20141019163204-20e86122596c // indirect
 	github.com/tinylib/msgp v1.1.0 // indirect
 	github.com/xdg/scram v0.0.0-20180814205039-7eeb5667e42c // indirect
 	github.com/xdg/stringprep v1.0.0 // indirect
